@@ -12,6 +12,8 @@ open Meta MetaEnc
 /-- one `<Relationship …/>` element: its `Id` and `Target` attribute values (raw bytes), in either order, among
     any other attributes (`Type`, `TargetMode`, …) -/
 structure RelDesc where
+  /-- qualified element name: `Relationship` or `<prefix>:Relationship` -/
+  name : Rels.B
   id : Rels.B
   target : Rels.B
   pre : List (Rels.B × Rels.B)
@@ -27,26 +29,27 @@ def RelDesc.attrs (r : RelDesc) : List (Option (Rels.B × Rels.B)) :=
 def otherAttrs (l : List (Rels.B × Rels.B)) : Prop := ∀ a ∈ l, a.1 ≠ Rels.nmId ∧ a.1 ≠ Rels.nmTarget
 
 def RelDesc.OK (r : RelDesc) : Prop :=
-  otherAttrs r.pre ∧ otherAttrs r.mid ∧ otherAttrs r.post ∧ (Utf8.utf8Decode r.target).isSome
+  Rels.localName r.name = Rels.nmRelationship ∧ otherAttrs r.pre ∧ otherAttrs r.mid ∧ otherAttrs r.post ∧
+  (Utf8.utf8Decode r.target).isSome
 
 /-- the events of a relationships part: relationship elements and anything else the reader passes over -/
 inductive RelItem where
   | rel (r : RelDesc)
   /-- `<Relationship …>` is followed by its `End` (both readers expand empty elements) -/
   | close (name : Rels.B)
-  /-- an element with another (qualified) name: `Relationships`, extensions … -/
+  /-- an element with another local name: `Relationships`, extensions … -/
   | elem (name : Rels.B) (attrs : List (Option (Rels.B × Rels.B)))
   | other
 
 def RelItem.ev : RelItem → Rels.Ev
-  | .rel r => .start Rels.nmRelationship r.attrs
+  | .rel r => .start r.name r.attrs
   | .close n => .end_ n
   | .elem n a => .start n a
   | .other => .other
 
 def RelItem.OK : RelItem → Prop
   | .rel r => r.OK
-  | .elem n _ => n ≠ Rels.nmRelationship
+  | .elem n _ => Rels.localName n ≠ Rels.nmRelationship
   | _ => True
 
 /-- the relationships the items declare, latest first -/
@@ -69,7 +72,9 @@ structure SheetDecl where
 
 def SheetDecl.sheet (d : SheetDecl) : XlsbSheet := ⟨d.vis, d.tabId, utf16 (d.relId.map Char.toNat), d.nameUnits⟩
 def SheetDecl.name (d : SheetDecl) : Text := Biff.decodeUtf16 d.nameUnits
-def SheetDecl.path (d : SheetDecl) : List Char := "xl/".toList ++ d.target
+/-- the part the `Target` names: `worksheets/s.bin` (relative to `xl/`), `/xl/worksheets/s.bin` (absolute part
+    name) and `xl/worksheets/s.bin` all mean `xl/worksheets/s.bin` -/
+def SheetDecl.path (d : SheetDecl) : List Char := xlsxPath d.target
 
 /-- the records of workbook.bin up to the end of the sheet list -/
 inductive WItem where
